@@ -36,7 +36,7 @@ def argv_of(c):
     if v == "uniq":
         return [v, "-g", ",".join(g)] + o
     if v == "stats1":
-        return [v, "-a", ",".join(acc_name(x) for x in a)] + fl + gl
+        return [v, "-a", ",".join(acc_name(x) for x in a)] + fl + gl + (["-w", str(n)] if n else [])
     if v == "merge-fields":
         return [v, "-a", ",".join(acc_name(x) for x in a)] + ([] if ("-r" in o or "-c" in o) else fl) + o
     if v == "step":
@@ -53,6 +53,13 @@ def argv_of(c):
         return [v] + fl + gl + o
     if v == "histogram":
         return [v, "--nbins", str(n)] + fl + o
+    if v == "dsl-stats":
+        calls = []
+        for x in a:
+            k = acc_name(x)
+            call = {"p": "percentile(@v,%d)" % x["p"], "percentiles": "percentiles(@v,[25,75])"}.get(x["k"], "%s(@v)" % x["k"])
+            calls.append('@o["%s"]=%s;' % (k, call))
+        return ["put", "-q", "begin{@v={}} @v[NR]=$%s; end{@o={}; %s emit @o}" % (f[0], " ".join(calls))]
     raise ValueError(v)
 
 
@@ -66,8 +73,8 @@ def key_of(c, diag):
     return k
 
 
-BOUNDS = {"quick": {"ExLen": 2, "MaxLen": 4, "NSample": 40},
-          "thorough": {"ExLen": 3, "MaxLen": 5, "NSample": 400}}
+BOUNDS = {"quick": {"ExLen": 2, "MaxLen": 4, "NSample": 25},
+          "thorough": {"ExLen": 3, "MaxLen": 5, "NSample": 150}}
 LAWLEN = {"quick": 3, "thorough": 4}
 
 
@@ -134,11 +141,14 @@ def run(tier, seed):
     # non-vacuity verb by verb: corrupted copies of conforming observations (first record dropped / a value altered / the
     # first two records swapped or the first one doubled) must be reported
     badset = {i for i, _ in bad}
-    picked, per = [], {}
+    picked, per, cand = [], {}, {}
     for i, o in enumerate(obs):
+        if i not in badset and o["out"] and o["out"][0]:
+            cand.setdefault(o["c"]["v"], []).append(i)
+    spread = sorted(i for v, ii in cand.items() for i in ii[::max(1, len(ii) // 24)][:24])
+    for i in spread:
+        o = obs[i]
         v = o["c"]["v"]
-        if i in badset or not o["out"] or not o["out"][0] or per.get(v, 0) >= 24:
-            continue
         m = copy.deepcopy(o)
         kind = per.get(v, 0) % 3
         if kind == 0:
